@@ -330,6 +330,24 @@ def realIPCtx (e : Ext) (cfg : Cfg) (parse : Str → Option IP) (req : Req) : St
   | .realIP => extractRealIP cfg parse req
   | .xff => extractXFF cfg parse req
 
+/-! ## one Echo instance over time
+
+`Context.RealIP` reads `Echo.IPExtractor` when it is called: not when the context was created,
+not when it was taken from the pool.  The extractor closures keep no state between calls
+(`checker` is only read).  So the only state of an Echo instance that matters is the extractor
+installed last. -/
+
+inductive Step where
+  | setExtractor (e : Ext) (cfg : Cfg)   -- the application assigns `e.IPExtractor`
+  | serve (req : Req)                    -- a request whose handler calls `c.RealIP()`
+deriving Repr, Inhabited
+
+/-- the `RealIP()` results of the served requests, in order; `st` = the installed extractor -/
+def runSteps (parse : Str → Option IP) : Ext × Cfg → List Step → List Str
+  | _, [] => []
+  | _, .setExtractor e cfg :: rest => runSteps parse (e, cfg) rest
+  | st, .serve req :: rest => realIPCtx st.1 st.2 parse req :: runSteps parse st rest
+
 /-! ## wire -/
 open Wire
 
@@ -389,6 +407,8 @@ def neededTokens (e : Ext) (req : Req) : List Str :=
 inductive Op where
   | reqs (cfg : Cfg) (e : Ext) (tbl : List (Str × Option IP)) (rs : List Req)
   | table (cfg : Cfg) (addrs : List IP)
+  | replaced (cfgA : Cfg) (eA : Ext) (tbl : List (Str × Option IP)) (rsA : List Req)
+      (cfgB : Cfg) (eB : Ext) (rsB : List Req)
 
 def pOp : P Op := do
   let k ← nat
@@ -403,11 +423,21 @@ def pOp : P Op := do
     let cfg ← pCfg
     let a ← list pIP
     pure (.table cfg a)
+  | 2 =>
+    let cfgA ← pCfg
+    let eA ← pExt
+    let tbl ← list pEntry
+    let rsA ← list pReq
+    let cfgB ← pCfg
+    let eB ← pExt
+    let rsB ← list pReq
+    pure (.replaced cfgA eA tbl rsA cfgB eB rsB)
   | _ => failure
 
 /-- lines:
     `0 cfg ext table nreq req*` → `nreq (peer result)*`  (or `missing-parse`)
-    `1 cfg naddr addr*` → string of `0`/`1` trust decisions -/
+    `1 cfg naddr addr*` → string of `0`/`1` trust decisions
+    `2 cfgA extA table nA req* cfgB extB nB req*` → `n (peer result)*` over both phases -/
 def runLine (line : String) : String :=
   match parseLine pOp line with
   | none => "bad-op"
@@ -417,5 +447,13 @@ def runLine (line : String) : String :=
     else "missing-parse"
   | some (.table cfg addrs) =>
     String.ofList (addrs.map fun a => if trust cfg a then '1' else '0')
+  | some (.replaced cfgA eA tbl rsA cfgB eB rsB) =>
+    -- requests under extractor A, then `e.IPExtractor = B`, then requests under B, one Echo instance
+    if rsA.all (fun r => (neededTokens eA r).all (fun t => (tbl.lookup t).isSome)) &&
+        rsB.all (fun r => (neededTokens eB r).all (fun t => (tbl.lookup t).isSome)) then
+      let steps := Step.setExtractor eA cfgA :: rsA.map Step.serve ++ Step.setExtractor eB cfgB :: rsB.map Step.serve
+      let res := runSteps (tableParse tbl) (eA, cfgA) steps
+      render (toString res.length :: ((rsA ++ rsB).zip res).flatMap fun (r, x) => [encStr (peerOf r.remoteAddr), encStr x])
+    else "missing-parse"
 
 end C10
